@@ -918,6 +918,38 @@ def run(R: Run):
         oracle(R, case, out, info, f"dask:{sched}" + (f":transport={TRANSPORTS[tk]}" if tk else "") + (":writer-with-len" if wk else ""))
         R.count(f"dask-sched:{sched}")
         R.count(f"dask-transport:{TRANSPORTS[tk]}")
+    # ---------------- how mpu_write seeds the partitions of its bags (part ids, credits, final flag, lhs_keep)
+    import dask.bag
+    from odc.geo.cog import _mpu as M_
+
+    def real_seeds(has_w, min_write, min_part, wpc, mark_final, nparts):
+        seen = []
+        orig = M_.MPUChunk.gen_bunch
+
+        def rec(partId, n, **kw):
+            out = list(orig(partId, n, **kw))
+            seen.append([f"{c.nextPartId}#{c.write_credits}/{bool_s(c.is_final)}/{c.lhs_keep}" for c in out])
+            return iter(out)
+
+        M_.MPUChunk.gen_bunch = staticmethod(rec)
+        try:
+            bags = [dask.bag.from_sequence([(b"x", 0)] * n, npartitions=n) for n in nparts]
+            assert [b.npartitions for b in bags] == list(nparts)
+            w = RecWriter(min_write, min_part, min_part + 10**6) if has_w else None
+            M_.mpu_write(bags if len(bags) > 1 else bags[0], w, mk_footer=None if mark_final else (lambda obs: b"f"),
+                         writes_per_chunk=wpc, spill_sz=0)
+        finally:
+            M_.MPUChunk.gen_bunch = staticmethod(orig)
+        return list_s(seen, lambda b: list_s(b))
+
+    for _ in range(R.pick(150, 1500)):
+        nparts = [rng.randint(1, 6) for _ in range(rng.choice([1, 1, 2, 3, 4, 5]))]
+        if rng.random() < 0.2:
+            nparts[rng.randrange(len(nparts))] = rng.randint(7, 40)
+        has_w = rng.random() < 0.85
+        a = (has_w, rng.choice([0, 4, 10]), rng.choice([0, 1, 3, 7]), rng.choice([1, 2, 3, 5]), rng.random() < 0.5, nparts)
+        R.corr(f"c06 seeds {bool_s(a[0])} {a[1]} {a[2]} {a[3]} {bool_s(a[4])} {list_s(nparts)}",
+               lambda: real_seeds(*a), sig=f"seeds|bags={len(nparts)}|w={bool_s(has_w)}")
     # ---------------- mpu_write over several bags, each sub-stream from its own size class
     for i in range(R.pick(80, 800)):
         cfg, subs = substream_case(rng)
